@@ -214,7 +214,7 @@ func init() {
 			if tier == "thorough" {
 				return 20 * time.Minute
 			}
-			return 100 * time.Second
+			return 240 * time.Second
 		},
 		Run: func(c *mc.Ctx) {
 			n := 4
